@@ -108,8 +108,13 @@ theorem win_restoreKids (ad : Addr) (n : Nat) (orig O : Objs) (d : Addr) (h : is
   | true => simp [win]
   | false => simpa using h hk
 
+theorem scaledClipWith_eq (O : Objs) (ad : Addr) : scaledClipWith O ad (O ad) (O (ad ++ [0])) = scaledClip O ad := rfl
+
+theorem writeAll_eq (ad : Addr) (s e : Option Int) (g : Nat) (O : Objs) (cs : List Asset) (i : Nat) (G : Grids) :
+    writeAll g (kidSlots ad s e O cs i) G = writeKids ad s e g O cs i G := rfl
+
 theorem win_scaledClip_other (O : Objs) (ad d : Addr) (h : d ≠ ad ++ [0]) : scaledClip O ad d = O d := by
-  simp [scaledClip, Objs.set, h]
+  simp [scaledClip, scaledClipWith, Objs.set, h]
 
 theorem scaledFinish_win (p : Params) (ad : Addr) (O : Objs) (res : Grids × Objs × Result)
     (h : ∀ d, win (res.2.1 d) = win (scaledClip O ad d)) (d : Addr) :
@@ -163,10 +168,11 @@ theorem setupTree_win (v : Version) : ∀ (x : Asset) (ad : Addr) (arg : Option 
     rcases buildPlain v.rederive G (O ad).grid (O ad).start (O ad).stop p.freq p.wacc arg with ⟨G', ptr, r⟩
     exact win_set_grid O ad d _ rfl
   | .scaled p b, ad, arg, G, O, d => by
-    rw [setupTree]
+    rw [setupTree, scaledClipWith_eq]
     exact scaledFinish_win p ad O _ (fun d => setupTree_win v b _ _ _ _ d) d
   | .structured p linked inner, ad, arg, G, O, d => by
     rw [setupTree]
+    simp only [writeAll_eq]
     split
     · rfl
     · rename_i g G0 _
@@ -190,12 +196,12 @@ end
 
 theorem scaledClip_grid (O : Objs) (ad d : Addr) : (scaledClip O ad d).grid = (O d).grid := by
   by_cases hd : d = ad ++ [0]
-  · subst hd; simp [scaledClip, Objs.set]
-  · simp [scaledClip, Objs.set, hd]
+  · subst hd; simp [scaledClip, scaledClipWith, Objs.set]
+  · simp [scaledClip, scaledClipWith, Objs.set, hd]
 
 theorem scaledClip_root (O : Objs) (ad : Addr) : scaledClip O ad ad = O ad := by
   have : ad ≠ ad ++ [0] := fun h => append_ne_self ad [0] (by simp) h.symm
-  simp [scaledClip, Objs.set, this]
+  simp [scaledClip, scaledClipWith, Objs.set, this]
 
 /-- a scaled asset whose base asset was set up on grid `g` -/
 theorem scaledFinish_ok (p : Params) (ad : Addr) (O : Objs) (G2 : Grids) (O2 : Objs) (us : List Used) (g : Nat)
@@ -250,7 +256,7 @@ theorem setupTree_grids (v : Version) : ∀ (x : Asset) (ad : Addr) (g : Nat) (G
       · subst hd; simp [Objs.set]
       · simp [Objs.set, hd]
   | .scaled p b, ad, g, G, O => by
-    rw [setupTree]
+    rw [setupTree, scaledClipWith_eq]
     have ih := setupTree_grids v b (ad ++ [0]) g G (scaledClip O ad)
     simp only [scaledArg]
     rcases hr : setupTree v b (ad ++ [0]) (some g) G (scaledClip O ad) with ⟨G2, O2, r⟩
@@ -287,7 +293,7 @@ theorem setupTree_grids (v : Version) : ∀ (x : Asset) (ad : Addr) (g : Nat) (G
         rwa [scaledClip_grid] at this
   | .structured p linked inner, ad, g, G, O => by
     rw [setupTree, structuredGrid_arg]
-    simp only
+    simp only [writeAll_eq]
     have ih := setupList_grids v inner ad 0 g
       (writeKids ad (O ad).start (O ad).stop g (O.set ad { O ad with grid := some g }) inner 0 (writeSlots G g (O ad).start (O ad).stop p.freq p.wacc))
       (clipKids ad inner.length (O ad).start (O ad).stop g (O.set ad { O ad with grid := some g }))
@@ -401,10 +407,10 @@ theorem KidsInv_scaled (p : Params) (b : Asset) (ad : Addr) (O : Objs) (hk : Kid
     simpa using this
   · have h0 := hk [0] (by simp)
     rw [winAt_scaled, winAt_nil] at h0
-    simp [scaledClip, Objs.set, (win_eq_pwin h0).1]
+    simp [scaledClip, scaledClipWith, Objs.set, (win_eq_pwin h0).1]
   · have h0 := hk [0] (by simp)
     rw [winAt_scaled, winAt_nil] at h0
-    simp [scaledClip, Objs.set, (win_eq_pwin h0).2]
+    simp [scaledClip, scaledClipWith, Objs.set, (win_eq_pwin h0).2]
 
 theorem lastWriteL_indep (g : Nat) (xs : List Asset) (s e : Option Int) (d d' : Used) (h : xs ≠ []) :
     lastWriteL g xs s e d = lastWriteL g xs s e d' := by
@@ -415,7 +421,7 @@ theorem lastWriteL_indep (g : Nat) (xs : List Asset) (s e : Option Int) (d d' : 
 theorem lastWriteL_writeKids (g : Nat) (xs : List Asset) (s e : Option Int) (ad : Addr) (Oa : Objs) (i : Nat) (G0 : Grids) :
     lastWriteL g xs s e (readSlots (writeKids ad s e g Oa xs i G0) g) = lastWriteL g xs s e (readSlots G0 g) := by
   cases xs with
-  | nil => simp [writeKids]
+  | nil => simp [writeKids, kidSlots, writeAll]
   | cons c cs => exact lastWriteL_indep g _ s e _ _ (by simp)
 
 /-- hypotheses of the inner loop: the `j`-th asset of the list sits at `ad ++ [i + j]` with its window clipped by `s e`, everything below it untouched -/
@@ -467,7 +473,7 @@ theorem setupTree_arg (v : Version) : ∀ (x : Asset) (ad : Addr) (g : Nat) (G :
     obtain ⟨hkb, hs, he⟩ := KidsInv_scaled p b ad O hk
     have ih := setupTree_arg v b (ad ++ [0]) g G (scaledClip O ad) hkb
     have hg := setupTree_grids v b (ad ++ [0]) g G (scaledClip O ad)
-    rw [setupTree]
+    rw [setupTree, scaledClipWith_eq]
     simp only [scaledArg]
     rcases hr : setupTree v b (ad ++ [0]) (some g) G (scaledClip O ad) with ⟨G2, O2, r⟩
     rw [hr] at ih hg
@@ -483,7 +489,7 @@ theorem setupTree_arg (v : Version) : ∀ (x : Asset) (ad : Addr) (g : Nat) (G :
       (writeKids ad (O ad).start (O ad).stop g (O.set ad { O ad with grid := some g }) inner 0 (writeSlots G g (O ad).start (O ad).stop p.freq p.wacc))
       _ (O ad).start (O ad).stop hl
     rw [setupTree, structuredGrid_arg]
-    simp only
+    simp only [writeAll_eq]
     rcases hr : setupList v inner ad 0 g
       (writeKids ad (O ad).start (O ad).stop g (O.set ad { O ad with grid := some g }) inner 0 (writeSlots G g (O ad).start (O ad).stop p.freq p.wacc))
       (clipKids ad inner.length (O ad).start (O ad).stop g (O.set ad { O ad with grid := some g })) with ⟨G2, O2, r⟩
@@ -549,7 +555,7 @@ theorem setupTree_noarg : ∀ (x : Asset) (ad : Addr) (G : Grids) (O : Objs), Ki
     | some g => simp [current, buildPlain_rederive_some, ownGrid, hg, Except.map, pureAt, Objs.set]
   | .scaled p b, ad, G, O, hk => by
     obtain ⟨hkb, hs, he⟩ := KidsInv_scaled p b ad O hk
-    rw [setupTree]
+    rw [setupTree, scaledClipWith_eq]
     cases hg : (O ad).grid with
     | some g =>
       have ih := setupTree_arg current b (ad ++ [0]) g G (scaledClip O ad) hkb
@@ -585,6 +591,7 @@ theorem setupTree_noarg : ∀ (x : Asset) (ad : Addr) (G : Grids) (O : Objs), Ki
         simp [ownGrid, hg, hb, pureAt, Objs.set]
   | .structured p linked inner, ad, G, O, hk => by
     rw [setupTree]
+    simp only [writeAll_eq]
     cases hg : (O ad).grid with
     | none => simp [structuredGrid, hg, ownGrid]
     | some g =>
